@@ -93,6 +93,15 @@ func c05Lifecycle(r *R) {
 			failLaunch["/a/"+c.Name] = 1
 			d += "(fails first launch)"
 		}
+		if r.Chance(20) {
+			// spawns a child while it is itself terminating: the late child must still see OnLaunch first
+			c.OnKill = func(ctx vivid.ActorContext, p *Probe) {
+				if _, err := w.SpawnIn(ctx, &Spec{Name: "z", OnLaunch: launchHook}); err == nil {
+					r.Count("spawned-in-OnKill-handler")
+				}
+			}
+			d += "(spawns z in its OnKill handler)"
+		}
 		top.Children = append(top.Children, c)
 		paths = append(paths, "/a/"+c.Name)
 		cdesc = append(cdesc, d)
